@@ -9,7 +9,7 @@ pub fn run(ctx: &Ctx) -> i32 {
     let prop: &'static str = if ctx.prop == "C10" { "C10" } else { "C11" };
     let engine = EyeEngine { prop };
     if let Some(path) = &ctx.replay {
-        return match read_replay(path).and_then(|rf| replay_one(ctx, &engine, &rf)) {
+        return match read_replay(path).and_then(|rf| if rf.engine == "tcpeyes" { replay_one(ctx, &crate::engines::tcpeyes::TcpEyesEngine { prop }, &rf) } else { replay_one(ctx, &engine, &rf) }) {
             Ok(c) => c,
             Err(e) => {
                 eprintln!("replay failed: {e}");
@@ -30,7 +30,10 @@ pub fn run(ctx: &Ctx) -> i32 {
     total.merge(o);
     total.merge(run_generated(ctx, &engine, "random-grid-n<=6", || random_strategy(6, false), ctx.cases(300_000, 6_000_000), 1000));
     total.merge(run_generated(ctx, &engine, "random-offgrid-n<=8", || random_strategy(8, true), ctx.cases(300_000, 6_000_000), 1000));
-    let rule = "attempt sets of scripted (outcome in {Ok,Err,Never}, latency) futures pushed into the hooked EyeballSet with stagger delay, overall timeout and initial concurrency from the grid (and off-grid values), run on a paused current_thread runtime; each attempt records its first-poll instant and sequence; result, instant and start instants are checked against necessary conditions from the statement and, when the reference simulation reports no cross-kind tie and no zero-latency attempt, must equal the reference exactly. non-trivial = at least two attempts with different non-zero completion times and a positive stagger delay or deadline; distinct by hash of the case";
+    // the real TcpTransport over loopback sockets (live / refused / hanging candidates), real clock
+    let tctx = Ctx { threads: 16, ..ctx.clone() };
+    total.merge(run_generated(&tctx, &crate::engines::tcpeyes::TcpEyesEngine { prop }, "tcp-transport", crate::engines::tcpeyes::strategy, ctx.cases(48, 1_500), 12));
+    let rule = "attempt sets of scripted (outcome in {Ok,Err,Never}, latency) futures pushed into the hooked EyeballSet with stagger delay, overall timeout and initial concurrency from the grid (and off-grid values), run on a paused current_thread runtime; each attempt records its first-poll instant and sequence; result, instant and start instants are checked against necessary conditions from the statement and, when the reference simulation reports no cross-kind tie and no zero-latency attempt, must equal the reference exactly. non-trivial = at least two attempts with different non-zero completion times and a positive stagger delay or deadline; distinct by hash of the case. tcp-transport leg: the real TcpTransport::connect_to_addrs over loopback candidates that accept, refuse, or hang (listener with a full accept queue), with happy_eyeballs_timeout in {none, 1.2 s, 1.6 s, 2.4 s} and concurrency in {none, 0..3}: outcome and completion time must match the reference for stagger = timeout / number of addresses (not earlier than expected; later than expected + 0.4 s is inconclusive)";
     finish(
         ctx,
         started,
